@@ -1342,7 +1342,32 @@ class Exec:
         raise SymExError(f"method .{meth} on {type(base).__name__} at line {node.lineno}")
 
     def ev_Lambda(self, node, env):
-        raise SymExError("lambda outside subset")
+        """a closure with Python's semantics: default values are evaluated NOW, free variables are looked up in the defining scope WHEN THE LAMBDA IS
+        CALLED (late binding: a lambda made in a loop sees the loop variable's final value unless it is bound through a default argument)"""
+        a_ = node.args
+        if a_.vararg or a_.kwarg or a_.kwonlyargs or a_.posonlyargs:
+            raise SymExError("lambda with */** / keyword-only parameters outside subset")
+        params = [x_.arg for x_ in a_.args]
+        defaults = [self.ev(d_, env) for d_ in a_.defaults]
+        first_default = len(params) - len(defaults)
+
+        def closure(ex, call_node, *args, **kwargs):
+            if len(args) > len(params):
+                raise SymExError("too many arguments for lambda")
+            local = {}
+            for i_, pn_ in enumerate(params):
+                if i_ < len(args):
+                    local[pn_] = args[i_]
+                elif pn_ in kwargs:
+                    local[pn_] = kwargs[pn_]
+                elif i_ >= first_default:
+                    local[pn_] = defaults[i_ - first_default]
+                else:
+                    raise SymExError(f"lambda missing argument {pn_}")
+            scope = dict(env)          # the defining scope as it is at call time
+            scope.update(local)
+            return ex.ev(node.body, scope)
+        return closure
 
     def ev_ListComp(self, node, env):
         return list(self._comp(node, node.elt, env))
